@@ -123,6 +123,7 @@ var onlyUnsupported atomic.Int64
 var c11ZeroBusy atomic.Bool
 
 const c11ZeroKey = "000000000000"
+
 var refusing atomic.Value // address of the server whose key function refuses 0x0200
 var c11ConnID atomic.Int64
 var c11Tag atomic.Uint32
